@@ -28,6 +28,7 @@ func init() {
 		}
 		for i := 0; i < n; i++ {
 			g := newDocgen(rng, false)
+			g.negZero = true
 			penv := g.pipelineEnv()
 			g.penvNames = sortedKeys(penv)
 			steps := g.signableSteps(3, 4, false)
@@ -192,7 +193,9 @@ func init() {
 				}
 			}
 			stat("C02", fmt.Sprintf("steps-%d", cnt))
-			if okj && i%3 != 0 {
+			// (documents holding -0.0 are oracle-only too: json.Marshal writes -0 where the canonical form has 0, a
+			// number token outside the model's num_ok, like integers beyond 2^53)
+			if okj && i%3 != 0 && !strings.Contains(text, "-0.0") {
 				// model comparison on the JSON leg (the interpolated third is oracle-only)
 				ds, _ := docSexp(text)
 				vs := sx.List{}
